@@ -1172,11 +1172,38 @@ func (p *w1Presence) RemovePresence(ch string, clientID string, userID string) e
 func (w *w1World) publish(ch string) {
 	w.markerSeq++
 	data := fmt.Sprintf(`{"m":"%d"}`, w.markerSeq)
+	plainPublish := false
 	if chHas(ch, 'd') {
-		// similar, longer payloads so that fossil deltas are real deltas
-		data = fmt.Sprintf(`{"m":"%d","pad":"%s","tail":%d}`, w.markerSeq, strings.Repeat("abcdefgh", 8), w.markerSeq%7)
+		// similar, longer payloads so that fossil deltas are real deltas; a head block that
+		// cycles among a few values (a delta computed against the wrong base then copies
+		// the wrong head) ...
+		head := strings.Repeat(string(rune('A'+w.markerSeq%5)), 24)
+		data = fmt.Sprintf(`{"m":"%d","head":"%s","pad":"%s","tail":%d}`, w.markerSeq, head, strings.Repeat("abcdefgh", 8), w.markerSeq%7)
+		switch w.s.Intn(6) {
+		case 4:
+			// ... sometimes a payload that shares nothing with its predecessor: the
+			// server falls back to the full payload, which becomes the client's new base
+			var sb strings.Builder
+			x := uint32(w.markerSeq)*2654435761 + 12345
+			for i := 0; i < 40+w.markerSeq%17; i++ {
+				x = x*1664525 + 1013904223
+				sb.WriteByte(byte('a' + (x>>24)%26))
+			}
+			data = fmt.Sprintf(`{"m":"%d","blob":"%s"}`, w.markerSeq, sb.String())
+			w.s.Probe("incompressible_publication_on_delta_channel")
+		case 5:
+			// ... and sometimes a publish without WithDelta on the same channel
+			plainPublish = true
+			w.s.Probe("plain_publish_on_delta_channel")
+		}
 	}
 	opts := w.publishOpts(ch)
+	if plainPublish {
+		opts = nil
+		if chPositioned(ch) || chHas(ch, 'h') {
+			opts = append(opts, WithHistory(w.sc.Cfg.HistorySize, time.Duration(w.sc.Cfg.HistoryTTLSec)*time.Second))
+		}
+	}
 	rec := &w1PubRec{Seq: w.next(), Ch: ch, Data: data}
 	if chHas(ch, 'f') && !w.markerPhase && w.s.Intn(5) == 4 {
 		// a publication without any tags on a filtered channel: an eq filter does not
@@ -1440,7 +1467,7 @@ var w1Flavours = map[string][]string{
 	"C02": {"r_", "r_", "rf_"},
 	"C38": {"pm_", "rm_", "m_", "pm_"},
 	"C16": {"f_", "pf_", "rf_", "cf_"},
-	"C14": {"pd_", "rd_", "pfd_", "rd_", "d_"},
+	"C14": {"pd_", "rd_", "pfd_", "rd_", "d_", "dm_", "pdm_"},
 	"C03": {"c_", "c_", "cf_"},
 	"C37": {"_", "p_"},
 }
@@ -1461,6 +1488,11 @@ func w1Gen(c *simrt.Choice, prop, tier string) any {
 	if c.Intn(3) == 0 {
 		cfg.WriteDelayUs = []int{200, 2000}[c.Intn(2)]
 		cfg.WriteTimer = c.Intn(2) == 0
+	}
+	if prop == "C14" && c.Intn(2) == 0 {
+		// channel medium with a locally kept latest publication as delta base (flavour m)
+		cfg.MediumLatest = true
+		cfg.MediumShared = c.Intn(2) == 0
 	}
 	if prop == "C38" {
 		switch c.Intn(4) {
